@@ -44,7 +44,7 @@ manifest = {
   "guard": "--cfg gc_arena_verif",
   "enable": "rustflags = [\"--cfg\", \"gc_arena_verif\"] in /verif/engine/.cargo/config.toml (./check runs cargo from /verif/engine; the probes pass the flag to rustc directly)",
   "baseline_off_cmd": "cd /repo && CARGO_NET_OFFLINE=true cargo test --workspace --no-fail-fast --offline",
-  "source_commits": ["899a3ae"],
+  "source_commits": ["899a3ae", "24c620d"],
   "add_only": True,
  },
  "engines": [
